@@ -4,7 +4,7 @@
     (inf * (1 + (-1)) <> inf * 1 + inf * (-1)). *)
 From Coq Require Import QArith Qcanon Lqa Bool Eqdep_dec.
 Require Import Fggs.Model.Semiring.
-Open Scope Qc_scope.
+Local Open Scope Qc_scope.
 
 Lemma this_plus a b : (this (a + b) == this a + this b)%Q.
 Proof. unfold Qcplus, Q2Qc; cbn [this]; apply Qred_correct. Qed.
